@@ -312,14 +312,14 @@ func workerMain(thorough bool) {
 			return
 		}
 		site := &sites[si]
-		if site.Quote.Only != nil && !site.Quote.Only(s) {
+		if site.Quote.Only != nil && (strings.HasPrefix(s, historyMark) || !site.Quote.Only(s)) {
 			fmt.Fprintf(w, "R\t%d\t%d\tinexpressible\t0\t0\t-\t\t\n", idx, si)
 			return
 		}
 		// the journal line must be on the pipe before the case runs
 		fmt.Fprintf(w, "B\t%d\n", idx)
 		w.Flush()
-		r := c.check(site, s)
+		r := c.checkCase(site, s)
 		if r.Outcome == "violation" || r.Outcome == "no_baseline" {
 			if r.Outcome == "no_baseline" {
 				r.Class = site.Group + ":oracle_gap_no_baseline"
@@ -369,7 +369,7 @@ func runWorker(r *ev.Run, exe string, shard, of, from, only int, a *agg) (lastBe
 		ev.Fatal("pipe: %v", err)
 	}
 	cmd.ExtraFiles = []*os.File{pw}
-	cmd.Env = append(os.Environ(), "GOMAXPROCS=2", "GOGC=400")
+	cmd.Env = append(os.Environ(), "GOMAXPROCS=1", "GOGC=400")
 	cmd.Stdout = nil // the repository prints every statement it builds
 	errPath := fmt.Sprintf("%s/worker-%d-%d.stderr", scratchDir(), shard, from)
 	if ef, err := os.Create(errPath); err == nil {
@@ -615,6 +615,9 @@ func main() {
 	r.Extra["by_language"] = a.byLang
 	r.Extra["finding_classes"] = a.classCount
 	r.Extra["workers"] = W
+	lim, limNames := sizeLimits()
+	r.Extra["size_limits_found_in_sql_builder_and_planners"] = limNames
+	r.Extra["history_predecessor_classes"] = 3 + len(lim)
 	r.Extra["front_end_rejections_by_reason"] = a.rejects
 	if len(a.died) > 0 {
 		r.Extra["worker_deaths"] = a.died
@@ -695,7 +698,7 @@ func replay(r *ev.Run) {
 		os.Stdout = null
 	}
 	c := newChecker()
-	res := c.check(site, s)
+	res := c.checkCase(site, s)
 	os.Stdout = saved
 	q, _ := site.Quote.F(s)
 	fmt.Printf("site      %s\nstring    %q\nrequest   %q\nvalue     %q\noutcome   %s  statements=%d carriers=%d err=%q\n", site.ID, s, q.Text, res.Value, res.Outcome, res.NSQL, res.Carriers, res.Err)
